@@ -29,6 +29,7 @@ ATOMS = {
     'ct': 'isinstance(candidate, type)',
     'mt': 'isinstance(%s, MethodTypes)' % A,
     'ft': 'FunctionType is type(%s.__func__)' % A,
+    'sm': 'isinstance(inspect.getattr_static(candidate, name), staticmethod)',
     'pr': 'isinstance(%s, property)' % A,
     'ca': 'callable(%s)' % A,
 }
@@ -43,7 +44,10 @@ def reference(a):
     if a['d1'] or a['d2']:
         return ('return',)
     if a['fn']:
-        d = 'F1' if (a['ct'] and a['c']) else 'F0'
+        # an implicit first argument is supplied only to a function found
+        # on the class under class verification - and not to a staticmethod
+        # of that class, which getattr() hands out as a plain function too
+        d = 'F1' if (a['ct'] and a['c'] and not a['sm']) else 'F0'
     elif a['mt'] and a['ft']:
         d = 'M'
     elif a['pr'] and a['c']:
@@ -173,7 +177,7 @@ def verify_element(rep, mod, rule):
                     'describe' if (len(want) > 1 and want[-1] in ('F0', 'F1', 'M')) or
                     (len(got) > 1 and str(got[-1])[:1] in 'FMb') else 'other')
                 probs[cat].append('with %s the code %s, required %s' % (
-                    {k: v for k, v in a.items() if k in known or k in ('ct', 'c')},
+                    {k: v for k, v in a.items() if k in known or k in ('ct', 'c', 'sm')},
                     got, want))
                 break
             seen.add(want)
